@@ -129,6 +129,10 @@ class VariableTerm(Term):
         # keeps it apart from Python constants (True, None, __debug__) and from the names the
         # generated code reads from the engine (ATOM_NIL)
         self.varname = s + '_'
+        if self.varname.startswith('__') and self.varname.endswith('__'):
+            # a variable spelled like __debug_ would become a double underscore name
+            # (__debug__ cannot be assigned); Prolog variables never start with a lower case letter
+            self.varname = 'v' + self.varname
     def __str__(self):
         return self.varname
     @property
